@@ -4,6 +4,7 @@ package eth2wrap
 
 import (
 	"context"
+	"maps"
 	"slices"
 	"strconv"
 	"sync"
@@ -415,7 +416,7 @@ func (c *DutiesCache) ProposerDutiesCache(ctx context.Context, epoch eth2p0.Epoc
 		// Fast path: every requested index has been queried previously, so the cache answer is complete.
 		if len(missing) == 0 {
 			cacheUsed = true
-			return ProposerDutyWithMeta{Duties: dutiesResult, Metadata: dutiesForEpoch.metadata}, nil
+			return ProposerDutyWithMeta{Duties: dutiesResult, Metadata: maps.Clone(dutiesForEpoch.metadata)}, nil
 		}
 
 		if len(dutiesResult) > 0 {
@@ -442,7 +443,7 @@ func (c *DutiesCache) ProposerDutiesCache(ctx context.Context, epoch eth2p0.Epoc
 		dutiesDeref = append(dutiesDeref, d)
 	}
 
-	_, ok = c.storeOrAmendProposerDuties(epoch, ProposerDutiesForEpoch{duties: dutiesDeref, metadata: eth2Resp.Metadata, requestedIdxs: requestVidxs})
+	_, ok = c.storeOrAmendProposerDuties(epoch, ProposerDutiesForEpoch{duties: dutiesDeref, metadata: maps.Clone(eth2Resp.Metadata), requestedIdxs: requestVidxs})
 	if !ok {
 		log.Debug(ctx, "Failed to cache proposer duties - another routine already cached duties for this epoch, skipping", z.U64("epoch", uint64(epoch)))
 	}
@@ -510,7 +511,7 @@ func (c *DutiesCache) AttesterDutiesCache(ctx context.Context, epoch eth2p0.Epoc
 		// Fast path: every requested index has been queried previously, so the cache answer is complete.
 		if len(missing) == 0 {
 			cacheUsed = true
-			return AttesterDutyWithMeta{Duties: dutiesResult, Metadata: dutiesForEpoch.metadata}, nil
+			return AttesterDutyWithMeta{Duties: dutiesResult, Metadata: maps.Clone(dutiesForEpoch.metadata)}, nil
 		}
 
 		if len(dutiesResult) > 0 {
@@ -537,7 +538,7 @@ func (c *DutiesCache) AttesterDutiesCache(ctx context.Context, epoch eth2p0.Epoc
 		dutiesDeref = append(dutiesDeref, d)
 	}
 
-	_, ok = c.storeOrAmendAttesterDuties(epoch, AttesterDutiesForEpoch{duties: dutiesDeref, metadata: eth2Resp.Metadata, requestedIdxs: requestVidxs})
+	_, ok = c.storeOrAmendAttesterDuties(epoch, AttesterDutiesForEpoch{duties: dutiesDeref, metadata: maps.Clone(eth2Resp.Metadata), requestedIdxs: requestVidxs})
 	if !ok {
 		log.Debug(ctx, "Failed to cache attester duties - another routine already cached duties for this epoch, skipping", z.U64("epoch", uint64(epoch)))
 	}
@@ -598,6 +599,8 @@ func (c *DutiesCache) SyncCommDutiesCache(ctx context.Context, epoch eth2p0.Epoc
 
 		for _, d := range dutiesForEpoch.duties {
 			if _, hit := requestedSet[d.ValidatorIndex]; hit {
+				// Callers get a private copy, including the indices slice.
+				d.ValidatorSyncCommitteeIndices = slices.Clone(d.ValidatorSyncCommitteeIndices)
 				dutiesResult = append(dutiesResult, &d)
 			}
 		}
@@ -605,7 +608,7 @@ func (c *DutiesCache) SyncCommDutiesCache(ctx context.Context, epoch eth2p0.Epoc
 		// Fast path: every requested index has been queried previously, so the cache answer is complete.
 		if len(missing) == 0 {
 			cacheUsed = true
-			return SyncDutyWithMeta{Duties: dutiesResult, Metadata: dutiesForEpoch.metadata}, nil
+			return SyncDutyWithMeta{Duties: dutiesResult, Metadata: maps.Clone(dutiesForEpoch.metadata)}, nil
 		}
 
 		if len(dutiesResult) > 0 {
@@ -629,10 +632,12 @@ func (c *DutiesCache) SyncCommDutiesCache(ctx context.Context, epoch eth2p0.Epoc
 		}
 
 		d := *duty
+		// The cached copy must not share the indices slice with the response handed to the caller.
+		d.ValidatorSyncCommitteeIndices = slices.Clone(duty.ValidatorSyncCommitteeIndices)
 		dutiesDeref = append(dutiesDeref, d)
 	}
 
-	_, ok = c.storeOrAmendSyncDuties(epoch, SyncDutiesForEpoch{duties: dutiesDeref, metadata: eth2Resp.Metadata, requestedIdxs: requestVidxs})
+	_, ok = c.storeOrAmendSyncDuties(epoch, SyncDutiesForEpoch{duties: dutiesDeref, metadata: maps.Clone(eth2Resp.Metadata), requestedIdxs: requestVidxs})
 	if !ok {
 		log.Debug(ctx, "Failed to cache sync duties - another routine already cached duties for this epoch, skipping", z.U64("epoch", uint64(epoch)))
 	}
